@@ -210,7 +210,7 @@ pub fn pi(input: &str) -> IResult<&str, model::PI<'_>> {
 ///
 /// [\[17\] PITarget](https://www.w3.org/TR/2008/REC-xml-20081126/#NT-PITarget)
 fn pi_target(input: &str) -> IResult<&str, &str> {
-    helper::take_except(name, "xml")(input)
+    verify(name, |v: &str| !v.eq_ignore_ascii_case("xml"))(input)
 }
 
 /// CDStart CData CDEnd
